@@ -95,6 +95,7 @@ Verdict(c) ==
       nf    |-> nfTags, nffl |-> SortedSeq(nfj.fl),
       e2e   |-> e2eTags, e2efl |-> SortedSeq(e2e.fl),
       kf1   |-> kfAny,
+      idv   |-> IdentityVerdict(sf[1], Strip(c.norm)),
       truthful |-> \A j \in {1, k} \cup {g \in 1..k : g % 8 = 0} : TruthfulFlags(fs[j])]
 
 Init == blk \in 1..NBLK /\ i = 0
